@@ -1,12 +1,16 @@
 package c04
 
 import (
+	"runtime/debug"
 	"testing"
 
 	"github.com/0xReLogic/Helios/verifharness/lab"
 )
 
 func TestMain(m *testing.M) {
+	// The live heap of these checks is a few MB, while every read of /health and /metrics allocates a document that
+	// is garbage at once: with the default pacing the collector runs every few reads and takes a third of the CPU time.
+	debug.SetGCPercent(800)
 	lab.Quiet()
 	lab.Main(m, "C04")
 }
